@@ -57,10 +57,12 @@ type cThread struct {
 	fn       Value
 	args     []Value
 	spawnKey string // identity: parent thread + spawn position
-	spawner  *cNode // node of the spawn event in the parent (nil for harness threads)
+	spawner  *cNode // one node of the spawn event in the parent (nil for harness threads)
+	spawners []*cNode // every node (on alternative parent paths) that spawns this thread
 	root     *cNode
 	paths    int
 	observer bool
+	harness  bool // registered by the harness prelude (as opposed to a `go` inside a thread)
 }
 
 type cSnapshot struct {
@@ -85,6 +87,8 @@ type CMode struct {
 	fObserved map[string]bool
 	pathCount map[string]int
 	initVal  map[string]string
+	initSet  map[string]map[string]bool // cells of thread-allocated objects: contents at publication
+	recording map[Ptr]bool
 	snaps    map[string]*cSnapshot // value key -> snapshot
 	shared   map[string]bool       // cells touched by an atomic/shared op
 	observed map[string]bool       // cells whose value some thread looks at (Load/Swap/CAS)
@@ -106,6 +110,7 @@ type CMode struct {
 	pathEnd  string
 	spawnSeq int
 	overrides map[string]Value
+	rp        *cReplay
 	inOverride bool
 	synth     map[string]Ptr
 
@@ -119,6 +124,7 @@ type CMode struct {
 	}
 	Schedule []string
 	BadTag   string
+	Replayed string
 }
 
 // ---------------------------------------------------------------------------
@@ -164,6 +170,49 @@ func (cm *CMode) registerObj(root Ptr, obj string) {
 	walk(root, obj)
 }
 
+// recordInit notes, for every field cell of a thread-allocated object that is being published, the
+// value it holds at that moment: a later read of that cell by another thread may see it without any
+// write event (the fields were initialised before the publishing write).
+func (cm *CMode) recordInit(root Ptr, id string) {
+	if cm.initSet == nil {
+		cm.initSet = map[string]map[string]bool{}
+	}
+	if cm.recording == nil {
+		cm.recording = map[Ptr]bool{}
+	}
+	if cm.recording[root] {
+		return
+	}
+	cm.recording[root] = true
+	defer delete(cm.recording, root)
+	var walk func(v Value, cell string)
+	walk = func(v Value, cell string) {
+		switch vv := v.(type) {
+		case Struct:
+			for i, f := range vv {
+				walk(f, fmt.Sprintf("%s.%d", cell, i))
+			}
+			return
+		case Array:
+			if len(vv) <= 64 {
+				for i, f := range vv {
+					walk(f, fmt.Sprintf("%s[%d]", cell, i))
+				}
+			}
+			return
+		}
+		k := cm.keep(v)
+		if cm.initSet[cell] == nil {
+			cm.initSet[cell] = map[string]bool{}
+		}
+		if !cm.initSet[cell][k] {
+			cm.initSet[cell][k] = true
+			cm.changed = true
+		}
+	}
+	walk(*root, id)
+}
+
 // valKey renders a concrete value as a string; thread-local objects reachable from it are
 // snapshotted so that another thread can materialise them.
 func (cm *CMode) valKey(v Value) string {
@@ -188,6 +237,10 @@ func (cm *CMode) valKey(v Value) string {
 		snapKey := "p:" + id + "#" + cm.contentKey(*v, 0)
 		if _, ok := cm.snaps[snapKey]; !ok {
 			cm.snaps[snapKey] = &cSnapshot{obj: id, val: cm.deepCopyOut(*v)}
+			if strings.HasPrefix(id, fmt.Sprintf("t%d.", cm.curID())) {
+				// only the allocating thread's publication defines the initial field values
+				cm.recordInit(v, id)
+			}
 		}
 		return snapKey
 	case Str:
@@ -553,6 +606,14 @@ func (cm *CMode) readOnly(addr string) bool {
 // "something else" (one event whatever the other value is).
 func (cm *CMode) sharedCAS(p Ptr, old, nv Value, note string) bool {
 	x := cm.x
+	if cm.rp != nil {
+		cm.gate('U', cm.cellOf(p))
+		if x.equal(nil, *p, old).IsTrue() {
+			x.store(p, copyVal(nv))
+			return true
+		}
+		return false
+	}
 	cm.budget()
 	addr := cm.cellOf(p)
 	cm.shared[addr] = true
@@ -653,6 +714,17 @@ func (cm *CMode) budget() {
 // sharedRead returns the value this path reads from cell p (forking over the candidates).
 func (cm *CMode) sharedRead(p Ptr, note string) Value {
 	x := cm.x
+	if cm.rp != nil {
+		addr := cm.cellOf(p)
+		if cm.readOnly(addr) {
+			return copyVal(*p)
+		}
+		n := cm.gate('R', addr)
+		if k := cm.valKey(*p); k != n.ev.rval && n.ev.kind == 'R' {
+			cm.rp.diverge = fmt.Sprintf("step %d: %s holds %s, the model read %s", cm.rp.pos-1, addr, shortVal(k), shortVal(n.ev.rval))
+		}
+		return copyVal(*p)
+	}
 	cm.budget()
 	addr := cm.cellOf(p)
 	cm.shared[addr] = true
@@ -667,11 +739,16 @@ func (cm *CMode) sharedRead(p Ptr, note string) Value {
 	cm.events = append(cm.events, cEvent{kind: 'R', addr: addr, rval: val, note: note})
 	v := cm.fromKey(val, *p)
 	// keep the local heap coherent with what was read
-	*p = v
+	x.store(p, v)
 	return copyVal(v)
 }
 
 func (cm *CMode) sharedWrite(p Ptr, v Value, note string) {
+	if cm.rp != nil {
+		cm.gate('W', cm.cellOf(p))
+		cm.x.store(p, copyVal(v))
+		return
+	}
 	addr := cm.cellOf(p)
 	cm.shared[addr] = true
 	cm.noteInit(addr, p)
@@ -685,6 +762,14 @@ func (cm *CMode) sharedWrite(p Ptr, v Value, note string) {
 // sharedRMW reads cell p (forking) and writes f(old); ok=false means "no write" (failed CAS).
 func (cm *CMode) sharedRMW(p Ptr, note string, f func(old Value) (Value, bool)) Value {
 	x := cm.x
+	if cm.rp != nil {
+		cm.gate('U', cm.cellOf(p))
+		old := copyVal(*p)
+		if nv, ok := f(copyVal(old)); ok {
+			x.store(p, copyVal(nv))
+		}
+		return old
+	}
 	cm.budget()
 	addr := cm.cellOf(p)
 	cm.shared[addr] = true
@@ -696,7 +781,7 @@ func (cm *CMode) sharedRMW(p Ptr, note string, f func(old Value) (Value, bool)) 
 	nv, ok := f(copyVal(old))
 	if !ok {
 		cm.events = append(cm.events, cEvent{kind: 'R', addr: addr, rval: val, note: note})
-		*p = old
+		x.store(p, old)
 		return old
 	}
 	k := cm.keep(nv)
@@ -783,6 +868,8 @@ func (x *Exec) RunConcurrent(entry *ssa.Function) *CMode {
 			t := cm.threads[i]
 			t.root = nil
 			t.paths = 0
+			t.spawner = nil
+			t.spawners = nil
 		}
 		cm.nodes = nil
 		for i := 0; i < len(cm.threads); i++ {
@@ -941,7 +1028,17 @@ func (cm *CMode) merge(t *cThread, evs []cEvent, end, bad string) {
 			cur.children = append(cur.children, nx)
 		}
 		if e.kind == 'S' {
-			cm.threads[e.child].spawner = nx
+			ct := cm.threads[e.child]
+			ct.spawner = nx
+			dup := false
+			for _, o := range ct.spawners {
+				if o == nx {
+					dup = true
+				}
+			}
+			if !dup {
+				ct.spawners = append(ct.spawners, nx)
+			}
 		}
 		cur = nx
 	}
@@ -970,7 +1067,7 @@ func (cm *CMode) spawnThread(name string, fn Value, args []Value, observer bool)
 	if t, ok := cm.byKey[key]; ok {
 		return t
 	}
-	t := &cThread{id: len(cm.threads), name: name, spawnKey: key, observer: observer}
+	t := &cThread{id: len(cm.threads), name: name, spawnKey: key, observer: observer, harness: cm.prelude}
 	if cm.prelude {
 		t.fn = fn
 		t.args = args
@@ -1021,12 +1118,26 @@ func (cm *CMode) solve() {
 		if t.root == nil {
 			continue
 		}
+		if os.Getenv("GOSYM_DEBUG") != "" {
+			sp := -1
+			if t.spawner != nil {
+				sp = t.spawner.id
+			}
+			fmt.Fprintf(os.Stderr, "THREAD T%d %s root=%d spawner=%d harness=%v key=%s\n", t.id, t.name, t.root.id, sp, t.harness, t.spawnKey)
+		}
 		switch {
 		case t.observer:
-		case t.spawner == nil:
+		case t.harness:
 			// harness threads may or may not have started (prefix-closed executions)
+		case t.spawner == nil:
+			// a thread of an earlier unfolding pass whose `go` does not exist any more
+			w("(assert (not %s))", on(t.root))
 		default:
-			w("(assert (=> %s (and %s (< %s %s))))", on(t.root), on(t.spawner), ck(t.spawner), ck(t.root))
+			var alts []string
+			for _, sp := range t.spawners {
+				alts = append(alts, fmt.Sprintf("(and %s (< %s %s))", on(sp), ck(sp), ck(t.root)))
+			}
+			w("(assert (=> %s (or %s)))", on(t.root), strings.Join(alts, " "))
 		}
 	}
 	// accesses per address
@@ -1095,7 +1206,16 @@ func (cm *CMode) solve() {
 			sr := fmt.Sprintf("s%d", r.id)
 			w("(declare-const %s Int)", sr)
 			var alts []string
+			initOK := false
 			if iv, ok := cm.initVal[addr]; ok && matches(iv) {
+				initOK = true
+			}
+			for iv := range cm.initSet[addr] {
+				if matches(iv) {
+					initOK = true
+				}
+			}
+			if initOK {
 				alts = append(alts, fmt.Sprintf("(= %s (- 1))", sr))
 			}
 			for _, src := range ws {
@@ -1110,6 +1230,9 @@ func (cm *CMode) solve() {
 				}
 			}
 			if len(alts) == 0 {
+				if os.Getenv("GOSYM_DEBUG") != "" {
+					fmt.Fprintf(os.Stderr, "NOSRC node %d thread %s %c %s rval=%s init=%s\n", r.id, r.thr.name, r.ev.kind, r.ev.addr, shortVal(r.ev.rval), shortVal(cm.initVal[addr]))
+				}
 				w("(assert (not %s))", on(r))
 			} else {
 				w("(assert (=> %s (or %s)))", on(r), strings.Join(alts, " "))
@@ -1149,7 +1272,7 @@ func (cm *CMode) solve() {
 		}
 		// harness threads all ran
 		for _, o := range cm.threads {
-			if o.spawner == nil && !o.observer && o.root != nil {
+			if o.harness && !o.observer && o.root != nil {
 				w("(assert (=> %s %s))", on(t.root), on(o.root))
 			}
 		}
@@ -1159,6 +1282,14 @@ func (cm *CMode) solve() {
 	for _, n := range cm.nodes {
 		if n.bad != "" {
 			bads = append(bads, on(n))
+			if os.Getenv("GOSYM_DEBUG") != "" {
+				// the path to this leaf
+				var evs []string
+				for a := n; a != nil; a = a.parent {
+					evs = append([]string{fmt.Sprintf("%d:%c %s r=%s w=%s", a.id, a.ev.kind, a.ev.addr, shortVal(a.ev.rval), shortVal(a.ev.wval))}, evs...)
+				}
+				fmt.Fprintf(os.Stderr, "BADLEAF %d thread %s (T%d) %s :: %s\n", n.id, n.thr.name, n.thr.id, n.bad, strings.Join(evs, " | "))
+			}
 		}
 		if n.end == "cut" {
 			cuts = append(cuts, on(n))
@@ -1220,7 +1351,13 @@ func (cm *CMode) solve() {
 	case "sat":
 		cm.Stats.Result = "sat"
 		x.solver.NSat++
-		cm.extract(out)
+		sel := cm.extract(out)
+		failed, why := cm.replaySchedule(sel)
+		if failed != "" {
+			cm.Replayed = "confirmed: the interpreted real code, run under this schedule, fails: " + failed
+		} else {
+			cm.Replayed = "not reproduced: " + why
+		}
 	default:
 		cm.Stats.Result = "unknown"
 		x.solver.NUnknown++
@@ -1236,7 +1373,7 @@ func oneLineStr(s string) string {
 }
 
 // extract reads the schedule (events that are on, sorted by clock) from a z3 model.
-func (cm *CMode) extract(out string) {
+func (cm *CMode) extract(out string) []*cNode {
 	onv := map[int]bool{}
 	clk := map[int]int64{}
 	lines := strings.Split(out, "\n")
@@ -1287,7 +1424,7 @@ func (cm *CMode) extract(out string) {
 		e := n.ev
 		switch e.kind {
 		case 'R':
-			cm.Schedule = append(cm.Schedule, fmt.Sprintf("%-28s read  %s = %s  %s", n.thr.name, e.addr, shortVal(e.rval), e.note))
+			cm.Schedule = append(cm.Schedule, fmt.Sprintf("T%d %-28s read  %s = %s  %s", n.thr.id, n.thr.name, e.addr, shortVal(e.rval), e.note))
 		case 'N':
 			cm.Schedule = append(cm.Schedule, fmt.Sprintf("%-28s read  %s != %s  %s", n.thr.name, e.addr, shortVal(e.rval), e.note))
 		case 'W':
@@ -1295,13 +1432,14 @@ func (cm *CMode) extract(out string) {
 		case 'U':
 			cm.Schedule = append(cm.Schedule, fmt.Sprintf("%-28s rmw   %s: %s -> %s  %s", n.thr.name, e.addr, shortVal(e.rval), shortVal(e.wval), e.note))
 		case 'S':
-			cm.Schedule = append(cm.Schedule, fmt.Sprintf("%-28s go    %s", n.thr.name, cm.threads[e.child].name))
+			cm.Schedule = append(cm.Schedule, fmt.Sprintf("T%d %-28s go    T%d %s", n.thr.id, n.thr.name, e.child, cm.threads[e.child].name))
 		default:
 			if n.bad != "" {
 				cm.Schedule = append(cm.Schedule, fmt.Sprintf("%-28s VIOLATION %s", n.thr.name, n.bad))
 			}
 		}
 	}
+	return sel
 }
 
 func shortVal(s string) string {
@@ -1364,6 +1502,15 @@ func (cm *CMode) noteAllocObj(p Ptr) {
 	if cm.prelude {
 		return
 	}
+	if cm.rp != nil {
+		t := cm.rp.thrOf[cm.x.cur]
+		if t == nil {
+			return
+		}
+		cm.rp.evN[cm.x.cur]++
+		cm.slotID[p] = fmt.Sprintf("t%d.a%d", t.id, cm.rp.evN[cm.x.cur])
+		return
+	}
 	cm.allocSeq++
 	cm.slotID[p] = fmt.Sprintf("t%d.a%d", cm.cur.id, cm.allocSeq)
 }
@@ -1390,6 +1537,16 @@ func (cm *CMode) goStmt(fn Value, args []Value, where string) {
 	case *ssa.Function:
 		name = f.Name()
 	}
+	if cm.rp != nil {
+		n := cm.gate('S', "")
+		if n.ev.kind != 'S' {
+			cm.rp.diverge = "schedule expected an access, thread spawns a goroutine"
+			panic(pathEnd{kind: "cm-blocked", msg: cm.rp.diverge})
+		}
+		g := cm.x.spawn(fn, args, "replay:"+cm.threads[n.ev.child].name)
+		cm.rp.thrOf[g] = cm.threads[n.ev.child]
+		return
+	}
 	t := cm.spawnThread(name, fn, args, false)
 	if !cm.prelude {
 		cm.events = append(cm.events, cEvent{kind: 'S', child: t.id, note: where})
@@ -1413,6 +1570,10 @@ func (cm *CMode) synthCell(id string, init func() Value) Ptr {
 }
 
 func (cm *CMode) fail(tag string) {
+	if cm.rp != nil {
+		cm.rp.failed = tag
+		panic(pathEnd{kind: "done", msg: "assertion failed in replay: " + tag})
+	}
 	cm.pathBad = tag
 	panic(pathEnd{kind: "cm-bad", msg: tag})
 }
@@ -1522,4 +1683,162 @@ func (cm *CMode) ask(script string) string {
 		first = first[:i]
 	}
 	return first
+}
+
+// ---------------------------------------------------------------------------
+// schedule replay: the real code is executed concretely (interpreted) with all threads alive at
+// once; every access to a shared cell waits until the solver's schedule says it is that thread's
+// turn. The counterexample counts as confirmed only if this run fails the same assertion.
+
+type cReplay struct {
+	steps   []*cNode // the events of the model, in clock order
+	pos     int
+	failed  string
+	diverge string
+	thrOf   map[*G]*cThread
+	evN     map[*G]int
+}
+
+func (cm *CMode) replaySchedule(sel []*cNode) (string, string) {
+	x := cm.x
+	rp := &cReplay{thrOf: map[*G]*cThread{}, evN: map[*G]int{}}
+	for _, n := range sel {
+		switch n.ev.kind {
+		case 'R', 'W', 'U', 'N', 'S':
+			rp.steps = append(rp.steps, n)
+		}
+	}
+	cm.rp = rp
+	defer func() { cm.rp = nil }()
+	// all harness threads exist from the start; spawned ones appear at their `go`
+	x.pathDone = make(chan pathEnd, 1)
+	x.gs = nil
+	x.aborting = false
+	x.steps = 0
+	x.journal = x.journal[:0]
+	cm.slotID = map[Ptr]string{}
+	cm.localObj = map[string]Ptr{}
+	cm.allocSeq = 0
+	cm.ownLast = map[string]string{}
+	main := x.spawn(&ssaNop, nil, "replay-controller")
+	_ = main
+	var started []*G
+	for _, t := range cm.threads {
+		if !t.harness || t.observer || t.root == nil {
+			continue
+		}
+		used := false
+		for _, n := range sel {
+			if n.thr == t {
+				used = true
+			}
+		}
+		if !used {
+			continue
+		}
+		g := x.spawn(t.fn, t.args, "replay:"+t.name)
+		rp.thrOf[g] = t
+		started = append(started, g)
+	}
+	// controller goroutine: waits until every thread is finished or stuck
+	ctl := x.gs[0]
+	ctl.fn = nil
+	ctl.started = true
+	x.cur = ctl
+	x.wg.Add(1)
+	go func() {
+		defer x.wg.Done()
+		defer func() {
+			if r := recover(); r != nil {
+				if pe, ok := r.(pathEnd); ok {
+					x.finish(pe)
+					return
+				}
+				x.finish(pathEnd{kind: "internal", msg: fmt.Sprint(r)})
+			}
+		}()
+		<-ctl.wake
+		if x.aborting {
+			return
+		}
+		x.cur = ctl
+		x.block(func() bool {
+			for _, g := range x.gs[1:] {
+				if !g.done {
+					return false
+				}
+			}
+			return true
+		}, "replay controller")
+		x.finish(pathEnd{kind: "done"})
+	}()
+	ctl.wake <- struct{}{}
+	pe := <-x.pathDone
+	x.aborting = true
+	for _, g := range x.gs {
+		if g.started && !g.done {
+			select {
+			case g.wake <- struct{}{}:
+			default:
+			}
+		}
+	}
+	x.wg.Wait()
+	x.aborting = false
+	for i := len(x.journal) - 1; i >= 0; i-- {
+		x.journal[i]()
+	}
+	x.journal = x.journal[:0]
+	if rp.failed != "" {
+		return rp.failed, ""
+	}
+	if pe.kind == "panic" || pe.kind == "panic-goroutine" {
+		return "uncaught " + firstLine(pe.msg), ""
+	}
+	if rp.diverge != "" {
+		return "", rp.diverge
+	}
+	exp := ""
+	if rp.pos < len(rp.steps) {
+		n := rp.steps[rp.pos]
+		exp = fmt.Sprintf("; next scheduled: %s %c %s", n.thr.name, n.ev.kind, n.ev.addr)
+	}
+	return "", "replay ended with " + pe.kind + " " + firstLine(pe.msg) + fmt.Sprintf(" at step %d of %d", rp.pos, len(rp.steps)) + exp
+}
+
+var ssaNop ssa.Function
+
+// gate blocks the current goroutine until the schedule's next step is this thread's access of addr.
+func (cm *CMode) gate(kind byte, addr string) *cNode {
+	x := cm.x
+	rp := cm.rp
+	g := x.cur
+	t := rp.thrOf[g]
+	if t == nil {
+		panic(pathEnd{kind: "hang", msg: "replay: access by an unknown thread"})
+	}
+	turn := func() bool {
+		if rp.pos >= len(rp.steps) {
+			return false
+		}
+		n := rp.steps[rp.pos]
+		return n.thr == t
+	}
+	if !turn() {
+		if rp.pos >= len(rp.steps) {
+			// the schedule is over: this thread was not meant to get further
+			panic(pathEnd{kind: "cm-blocked", msg: "beyond the schedule"})
+		}
+		x.block(turn, "replay gate")
+	}
+	n := rp.steps[rp.pos]
+	if os.Getenv("GOSYM_DEBUG") != "" {
+		fmt.Fprintf(os.Stderr, "GATE step %d thread %s kind %c addr %s (schedule: %s %c %s)%s\n", rp.pos, t.name, kind, addr, n.thr.name, n.ev.kind, n.ev.addr, x.whereAmI())
+	}
+	if n.ev.addr != addr && n.ev.kind != 'S' {
+		rp.diverge = fmt.Sprintf("step %d: thread %s accesses %s, schedule says %s", rp.pos, t.name, addr, n.ev.addr)
+		panic(pathEnd{kind: "cm-blocked", msg: rp.diverge})
+	}
+	rp.pos++
+	return n
 }
